@@ -341,6 +341,12 @@ def c07(tier, seed):
         scenario("cat_1d", [cat("A", 4, miss=[2], ids=[4, 9, 1, 2])]),
         scenario("mr_1d", [mr("A", 3)]),
         scenario("cat_x_cat_x_cat", [cat("T", 2), cat("A", 3), cat("B", 3, ids=[3, 2, 1])]),
+        scenario("mrder_x_cat", [mr("A", 4, derived={1: {"of": [2, 3], "at": "top"},
+                                                     4: {"of": [3], "at": "after", "ref": 2}}),
+                                 cat("B", 3)]),
+        scenario("cat_x_mrder", [cat("A", 3), mr("B", 4, derived={3: {"of": [1, 2], "at": "before", "ref": 1},
+                                                                  4: {"of": [1, 2], "at": "bottom"}})]),
+        scenario("mrder_1d", [mr("A", 4, derived={2: {"of": [1, 3], "at": "after", "ref": 4}})]),
     ]
     scns = _with_order_configs(scns, n, seed)
     for s in scns:
@@ -469,6 +475,9 @@ def c05(tier, seed):
         scenario("cat_x_cat_y", [cat("A", 3), cat("B", 3, miss=[2])], **y),
         scenario("cat_x_cat_x_cat", [cat("T", 2), cat("A", 3), cat("B", 3)]),
         scenario("cat_x_cat.sq", [cat("A", 3), cat("B", 3)], squared_weights=True),
+        scenario("mrder_x_cat", [mr("A", 4, derived={1: {"of": [2, 3], "at": "top"},
+                                                     4: {"of": [3], "at": "after", "ref": 2}}),
+                                 cat("B", 3)]),
     ]
     scns = []
     for i, s in enumerate(base):
